@@ -111,7 +111,7 @@ def main():
     if sys.argv[1] == '--recheck-fast': return recheck_fast()
     resdir, outdir = sys.argv[1], sys.argv[2]
     rnd = int(sys.argv[3]) if len(sys.argv) > 3 else 1
-    letter = {1: {'A': 'A', 'B': 'B'}, 2: {'A': 'C', 'B': 'D'}, 3: {'A': 'E', 'B': 'F'}, 4: {'A': 'G', 'B': 'H'}, 5: {'A': 'I', 'B': 'J'}, 6: {'A': 'K', 'B': 'L'}}[rnd]
+    letter = {1: {'A': 'A', 'B': 'B'}, 2: {'A': 'C', 'B': 'D'}, 3: {'A': 'E', 'B': 'F'}, 4: {'A': 'G', 'B': 'H'}, 5: {'A': 'I', 'B': 'J'}, 6: {'A': 'K', 'B': 'L'}, 7: {'A': 'M', 'B': 'N'}}[rnd]
     rows = []
     for f in sorted(os.listdir(resdir)):
         if not f.endswith('.json'): continue
